@@ -184,6 +184,10 @@ class ExprMixin(ExecBase):
             if all(v.ty.kind == 'bool' for v in vs):
                 ts = [v.term for v in vs]
                 return mk_bool(z3.And(*ts) if is_and else z3.Or(*ts))
+            if len({(v.ty.kind, v.ty.cls if v.ty.kind == 'obj' else repr(v.ty)) for v in vs}) > 1 and not all(v.ty.kind == 'obj' for v in vs):
+                # operands of different kinds: only the truth value of the whole expression is meaningful in a clause
+                ts = [self.truth(v) for v in vs]
+                return mk_bool(z3.And(*ts) if is_and else z3.Or(*ts))
             acc = vs[-1]
             for v in reversed(vs[:-1]):
                 acc = self.ite(self.truth(v), acc, v) if is_and else self.ite(self.truth(v), v, acc)
@@ -277,7 +281,7 @@ class ExprMixin(ExecBase):
             return
         allowed = self.C is not None and any(exc_cls in ((r.cls,) if isinstance(r.cls, str) else r.cls) or
                                              any(a in smt.ancestors(exc_cls) for a in ((r.cls,) if isinstance(r.cls, str) else r.cls))
-                                             for r in self.C.raises) or self.in_try_catching(exc_cls)
+                                             for r in self.C.raises if not r.caller_only and r.origin is None) or self.in_try_catching(exc_cls)
         if allowed:
             if not self.branch(ok, 'safety_' + label):
                 self.raise_new(exc_cls, 'implicit:' + label)
@@ -473,5 +477,7 @@ class ExprMixin(ExecBase):
     def e_Await(self, n):
         if not isinstance(n.value, ast.Call):
             v = self.eval(n.value)
+            if v.ty.kind == 'obj' and v.py and v.py[0] == 'task':
+                return self.spec.builtins['Task#await'](self, v)
             return self.await_value(v)
         return self.eval_call(n.value, awaited=True)
